@@ -129,6 +129,11 @@ def run(prop, tier):
                         modes = ("program", "session", "history")
                     else:
                         modes = ("program",)
+                    # ... and with the comparison executed while a MODULE body is evaluated (the synchronous executor
+                    # of import resolution, another code path than a worker: seeded change C13-3 shifted its table of
+                    # canonical tuple shapes by two); processes cannot run there
+                    if "@msg:" not in pa + pb and (tier != "quick" or rnd.random() < (0.6 if same else 0.15)):
+                        modes = modes + ("module",)
                     for mode in modes:
                         cases.append((va, vb, pa, pb, lb, use_union, mode, same))
     if tier == "quick" and len(cases) > 1500:
@@ -143,6 +148,8 @@ def run(prop, tier):
             reqs.append({"id": cid, "src": src, "modules": MODULES})
         elif mode == "history":
             reqs.append({"id": cid, "lines": HISTORY + [src], "modules": MODULES})
+        elif mode == "module":
+            reqs.append({"id": cid, "src": "%cmp", "modules": dict(MODULES, cmp=src)})
         else:
             reqs.append({"id": cid, "lines": session(pa, pb, lb, uu), "modules": MODULES})
     outs = {}
@@ -179,7 +186,7 @@ def run(prop, tier):
     check.cov["rejected_by_compiler"] = rejected
     check.cov["distinct_nontrivial"] = len({(c[2], c[3]) for cid, (c, _) in byid.items() if c[2] != c[3]})
     check.cov["same_value_pairs"] = sum(1 for cid, (c, _) in byid.items() if c[7])
-    check.cov["per_mode"] = {m: sum(1 for cid, (c, _) in byid.items() if c[6] == m) for m in ("program", "session", "history")}
+    check.cov["per_mode"] = {m: sum(1 for cid, (c, _) in byid.items() if c[6] == m) for m in ("program", "session", "history", "module")}
     check.cov["rule"] = ("one evaluation = one pair of construction paths (of the same or of different abstract values) with the verdicts "
                          "of pin / repeated binder / literal match, directly or through a union-typed function, as one program, across "
                          "REPL lines, or after other programs were merged; non-trivial = the two paths differ")
